@@ -232,10 +232,13 @@ class ReadSetReader:
         variants = dict()
         skip = set()
         for read in group:
-            if read.is_reverse != primary.is_reverse:
-                continue
-            if primary.distance(read) > distance_threshold:
-                continue
+            # Orientation and distance only qualify supplementary alignments; the two primary
+            # alignments of a read pair normally have opposite orientations
+            if read.is_supplementary:
+                if read.is_reverse != primary.is_reverse:
+                    continue
+                if primary.distance(read) > distance_threshold:
+                    continue
             reference_start = min(reference_start, read.reference_start)
             for variant in read.read:
                 if variant.position in variants:
